@@ -57,6 +57,13 @@ class Ctx:
         self.after_end = False
         self.waits_this_tick = 0
         self.abort = None
+        self.tsched = []               # order in which the task set was iterated, tick after tick (task ids)
+        self.tids = {}                 # id(event of the task) -> task id (spawn order)
+        self.ncopy = 0
+        self.holders = {}              # plain components below the app that hold timers
+        self.held = {}                 # holder -> timer ids
+        self.holders_gone = set()
+        self.keep = []                 # keeps task events alive so that id() stays unique
 
     def time(self):
         return self.now / float(UNIT)
@@ -107,10 +114,10 @@ class VEvent:
         else:
             u = timeout * UNIT
             dur = int(math.ceil(u))
-            if u == int(u):
-                enc = [int(u)]
-            elif timeout == _M.TIMEOUT:
+            if timeout == _M.TIMEOUT:
                 enc = [-2]
+            elif u == int(u):
+                enc = [int(u)]
             else:
                 enc = [-3, int(math.floor(u))]
         rec = ctx.log[-1] if ctx.log else None
@@ -132,6 +139,45 @@ class VEvent:
             return True
         ctx.now += dur
         return False
+
+
+class TaskSet(set):
+    """double of Manager._tasks: a set whose copy() (the iteration of one tick) yields the tasks in an order chosen
+    by the case (any order is a legitimate set order) and records it"""
+
+    def __init__(self, ctx):
+        super().__init__()
+        self._ctx = ctx
+        self._order = []
+
+    def add(self, g):
+        if g not in self:
+            self._order.append(g)
+        super().add(g)
+        self._ctx.tids.setdefault(id(g[0]), len(self._ctx.tids))
+        self._ctx.keep.append(g[0])
+
+    def remove(self, g):
+        super().remove(g)
+        self._order.remove(g)
+
+    def discard(self, g):
+        if g in self:
+            self.remove(g)
+
+    def copy(self):
+        ctx = self._ctx
+        items = list(self._order)
+        to = ctx.case.get('torder') or [0]
+        r = to[ctx.ncopy % len(to)]
+        ctx.ncopy += 1
+        if items:
+            k = r % len(items)
+            items = items[k:] + items[:k]
+            if (r // 7) % 2:
+                items.reverse()
+        ctx.tsched.extend(ctx.tids[id(g[0])] for g in items)
+        return items
 
 
 def run_ops(ctx, ops):
@@ -160,6 +206,28 @@ def run_ops(ctx, ops):
             if o[1] < len(ctx.timers):
                 ctx.timers[o[1]].unregister()
                 ctx.log.append([3, o[1], ctx.now])
+        elif k == 'rereg':
+            if o[1] < len(ctx.timers):
+                t = ctx.timers[o[1]]
+                if t.parent is t and not t.unregister_pending:
+                    t.register(ctx.app)
+                    ctx.log.append([6, o[1], ctx.now])
+        elif k == 'create_in':
+            # a timer below a plain component (holder) of the application
+            h = o[1]
+            if h not in ctx.holders:
+                ctx.holders[h] = Component().register(ctx.app)
+                ctx.held[h] = []
+            i = len(ctx.timers)
+            t = Timer(o[2] / float(UNIT), tev(i), persist=bool(o[3])).register(ctx.holders[h])
+            ctx.timers.append(t)
+            ctx.held[h].append(i)
+            ctx.log.append([1, ctx.now, enc_units(t.interval), 1 if o[3] else 0, -1])
+            if h in ctx.holders_gone:      # created below a holder that has already left the tree: never reachable
+                ctx.log.append([7, h, ctx.now, [i]])
+        elif k == 'unreg_holder':
+            if o[1] in ctx.holders:
+                ctx.holders[o[1]].unregister()
         elif k == 'work':
             ctx.now += max(0, o[1])
         elif k == 'fire':
@@ -182,6 +250,10 @@ def make_app(ctx):
     class App(Component):
         @handler('generate_events', priority=50)
         def _c09_iteration(self, event):
+            for h, c in ctx.holders.items():
+                if h not in ctx.holders_gone and c.root is not ctx.app:
+                    ctx.holders_gone.add(h)
+                    ctx.log.append([7, h, ctx.now, list(ctx.held[h])])
             ctx.log.append([4, ctx.now, [], -1])
 
         def tev(self, i):
@@ -219,6 +291,7 @@ def run_case(case):
     Ctx.cur = ctx
     try:
         app = ctx.app = make_app(ctx)
+        app._tasks = TaskSet(ctx)
         app._running = True
         ticks = 0
         for _ in range(case['n']):
@@ -229,7 +302,7 @@ def run_case(case):
             ticks += 1
             if ctx.idle_forever or ctx.abort:
                 break
-        final = [[1 if (t.parent is not t) else 0, 1 if t.unregister_pending else 0, enc_units(t.expiry)]
+        final = [[1 if (t.parent is not t and not t.unregister_pending) else 0, enc_units(t.expiry)]
                  for t in ctx.timers]
         endnow = ctx.now
         nlog = len(ctx.log)
@@ -242,8 +315,20 @@ def run_case(case):
             if not len(app):
                 break
             app.flush()
-        removed = [1 if (t.parent is t and t not in app.components) else 0 for t in ctx.timers]
-        return {'log': ctx.log[:nlog], 'tail': ctx.log[nlog:], 'final': final, 'now': endnow, 'ticks': ticks,
+        for h, c in ctx.holders.items():
+            if h not in ctx.holders_gone and c.root is not app:
+                ctx.log.append([7, h, ctx.now, list(ctx.held[h])])
+        removed = [1 if (t.root is not app) else 0 for t in ctx.timers]
+        log, tail = ctx.log[:nlog], ctx.log[nlog:]
+        # attribute every dispatched timer event to the iteration that fired it (the last one before the dispatch)
+        fired, last = {}, None
+        for idx, r in enumerate(log + [r for r in tail if r[0] == 5]):
+            if r[0] == 4:
+                last = idx
+            elif r[0] == 5:
+                fired.setdefault(-1 if last is None else last, []).append(r[1])
+        return {'log': log, 'tail': tail, 'final': final, 'now': endnow, 'ticks': ticks,
+                'fired': sorted(fired.items()), 'tsched': ctx.tsched,
                 'idle': 1 if ctx.idle_forever else 0, 'removed': removed, 'abort': ctx.abort,
                 'tmo': list(Fraction(_M.TIMEOUT * UNIT).as_integer_ratio())}
     finally:
@@ -260,26 +345,21 @@ def spec_check(obs):
     """the property read directly on the trace of the real loop.  Per timer the specification state is
     (t0 = when it was last armed: created / reset / fired, iv = interval, persistent, alive = registered and no
     unregistration requested).  Records: 1 create, 2 reset, 3 unregister requested, 4 loop iteration (+ idle wait),
-    5 timer event dispatched (it was fired by the iteration before)."""
+    5 timer event dispatched (it was fired by the iteration before), 6 registered again after removal, 7 the plain
+    component holding the listed timers was seen outside the application's tree."""
     if obs.get('abort'):
         return obs['abort']
-    log = obs['log'] + [r for r in obs['tail'] if r[0] == 5]
+    log = obs['log'] + [r for r in obs['tail'] if r[0] in (5, 7)]
     T = []
-    # attribute each dispatched timer event to the iteration that fired it
-    fired_by = {}
-    last_iter = None
-    for idx, r in enumerate(log):
-        if r[0] == 4:
-            last_iter = idx
-        elif r[0] == 5:
-            if last_iter is None:
-                return 'timer %d fired before the loop ever iterated' % r[1]
-            fired_by.setdefault(last_iter, []).append(r[1])
+    # each dispatched timer event was fired by the last iteration before its dispatch
+    fired_by = dict((k, v) for k, v in obs['fired'])
+    if -1 in fired_by:
+        return 'timer %d fired before the loop ever iterated' % fired_by[-1][0]
     last_t = None
     fires = {}
     for idx, r in enumerate(log):
         k = r[0]
-        t = r[2] if k in (2, 3, 5) else r[1]
+        t = r[2] if k in (2, 3, 5, 6, 7) else r[1]
         if last_t is not None and t < last_t:
             return 'virtual clock went backwards at record %r' % (r,)
         last_t = t
@@ -299,10 +379,14 @@ def spec_check(obs):
                 tm['iv'] = r[3][0]
         elif k == 3:
             T[r[1]]['alive'] = False
+        elif k == 6:
+            T[r[1]]['alive'] = True        # registered again: a new life, with the expiry it had
+        elif k == 7:
+            for i in r[3]:                 # the component holding these timers has left the tree
+                T[i]['alive'] = False
         elif k == 4:
             _, t, w, dur = r
             fired = fired_by.get(idx, [])
-            cut = idx == max([j for j, x in enumerate(log) if x[0] == 4])
             for i in fired:
                 if i >= len(T):
                     return 'unknown timer %d fired' % i
@@ -366,6 +450,8 @@ def op_term(o):
         return 'OWork %s' % z(o[1])
     if k == 'fire':
         return 'OFire %d%%nat' % o[1]
+    if k == 'rereg':
+        return 'OReReg %d%%nat' % o[1]
     raise ValueError(o)
 
 
@@ -381,6 +467,51 @@ def gstep_term(s):
     return 'GSleep %s' % z(s[1])
 
 
+def tl_term(w):
+    if not w:
+        return 'None'
+    if w[0] == -1:
+        return '(Some Inf)'
+    if w[0] == -2:
+        return '(Some Tmo)'
+    if w[0] == -3:
+        return '(Some (Fin %s))' % z(w[1])
+    return '(Some (Fin %s))' % z(w[0])
+
+
+def hist_term(obs):
+    """the implementation's history as a Coq `list lrec`"""
+    fired = dict((k, v) for k, v in obs['fired'])
+    out = []
+    for idx, r in enumerate(obs['log']):
+        k = r[0]
+        if k == 1:
+            out.append('LCreate %s %s %s %s' % (z(r[1]), z(r[2]), 'true' if r[3] else 'false',
+                                                 'None' if r[4] < 0 else '(Some %s)' % z(r[4])))
+        elif k == 2:
+            out.append('LReset %d%%nat %s %s' % (r[1], z(r[2]), '(Some %s)' % z(r[3][0]) if r[3] else 'None'))
+        elif k == 3:
+            out.append('LUnreq %d%%nat %s' % (r[1], z(r[2])))
+        elif k == 4:
+            out.append('LIter %s [%s]%%nat %s' % (z(r[1]), ';'.join(str(i) for i in fired.get(idx, [])), tl_term(r[2])))
+        elif k == 5:
+            out.append('LDisp %d%%nat %s' % (r[1], z(r[2])))
+        elif k == 6:
+            out.append('LRereg %d%%nat %s' % (r[1], z(r[2])))
+    return '[%s]' % '; '.join(out)
+
+
+def has_holder(case):
+    def ops_of(c):
+        for l in c['ops'] + c['onfire']:
+            yield from l
+        for g in c['gs']:
+            for st in g:
+                if st[0] == 'ops':
+                    yield from st[1]
+    return any(o[0] in ('create_in', 'unreg_holder') for o in ops_of(case))
+
+
 GRID = [0, 0, 1, 2, 3, 64, 128, 256, 512, 512, 768, 1024, 1024, 1536, 2048, 3072]
 
 
@@ -391,8 +522,8 @@ class C09(Prop):
     quick_n = 300
     thorough_n = 4000
     rule = ('programs over the real Manager loop on a virtual clock: 0-5 timers (intervals from a dyadic grid incl. 0 and '
-            'equal values, one-shot / persistent, relative or datetime deadline) created, reset and unregistered by '
-            'scripted ordinary events, by handlers of timer events and by one generator task (yield / sleep), external '
+            'equal values, one-shot / persistent, relative or datetime deadline) created, reset, unregistered and registered again by '
+            'scripted ordinary events, by handlers of timer events and by up to 4 generator tasks alive at once (yield / sleep; the task set is iterated in a scripted, recorded order), timers below a component that is unregistered later (oracle only), external '
             'events arriving during idle waits (fired from another thread), busy handlers that advance the clock; '
             'non-trivial = at least one timer fired and at least one idle wait was bounded by a timer')
     trusted_base = ['hand-written model Model/Timers.v (Timer, generate_events.reduce_time_left, FallBackGenerator wait, the '
@@ -402,7 +533,10 @@ class C09(Prop):
                    'mktime(datetime.timetuple()) = whole seconds of the deadline (local-time conversion not modelled)',
                    'order in which due timers fire inside one iteration (set iteration order) is recorded from the run and '
                    'given to the model as a schedule; theorems hold for every schedule',
-                   'at most one generator task alive per generated case (task set order); the model runs tasks in list order']
+                   'order in which the task set is iterated is scripted by the case through a double of Manager._tasks, recorded and '
+                   'given to the model as a schedule; theorems hold for every schedule',
+                   'the correspondence compares exactly what C09 constrains (specification monitor run on the implementation history, '
+                   'final alive/expiry) and the loop skeleton tolerantly (history without idle iterations between the model at n/2 and 2n ticks)']
 
     def __init__(self):
         self.stats = {}
@@ -423,8 +557,10 @@ class C09(Prop):
                 ops.append(['reset', rng.randrange(nt)])
             elif r < 0.58:
                 ops.append(['reset_to', rng.randrange(nt), rng.choice(GRID)])
-            elif r < 0.74:
+            elif r < 0.70:
                 ops.append(['unreg', rng.randrange(nt)])
+            elif r < 0.75:
+                ops.append(['rereg', rng.randrange(nt)])
             elif r < 0.92:
                 ops.append(['work', rng.choice([0, 1, 2, 5, 64, 100, 300, 700, 1100])])
             elif lo < nops:
@@ -442,25 +578,38 @@ class C09(Prop):
             onfire = [self.gen_ops(rng, nt, nops, persist_ok=False) if rng.random() < 0.4 else [] for _ in range(nt + 2)]
             gs = []
             stims = [[T0, 0, 0]]
-            if rng.random() < 0.45:
+            ntasks = rng.choice([0, 0, 0, 1, 1, 2, 3])
+            for g in range(ntasks):
                 steps = []
                 for _ in range(rng.randint(1, 5)):
                     r = rng.random()
                     if r < 0.35:
                         steps.append(['yield'])
-                    elif r < 0.65:
+                    elif r < 0.60:
                         steps.append(['sleep', rng.choice([0, 50, 102, 103, 205, 500, 1024, 2000])])
                     else:
                         steps.append(['ops', self.gen_ops(rng, nt, nops)])
                 gs.append(steps)
-                stims.append([T0 + rng.choice([0, 1, 100, 700, 1500]), 1, 0])
+            for g in range(ntasks + (1 if ntasks and rng.random() < 0.3 else 0)):   # sometimes one generator twice
+                stims.append([T0 + rng.choice([0, 0, 1, 100, 700, 1500]), 1, rng.randrange(ntasks)])
             t = T0
             for _ in range(rng.randint(0, 5)):
                 t = T0 + rng.choice([0, 1, 63, 64, 65, 127, 128, 200, 255, 256, 511, 512, 513, 767, 1000, 1023, 1024, 1025,
                                      1535, 1536, 2047, 2048, 2049, 3000, 4000, 6000])
                 stims.append([t, 0, rng.randrange(nops)])
             stims.sort(key=lambda s: s[0])
-            cases.append({'n': rng.choice([8, 14, 20, 30]), 'stims': stims, 'ops': ops, 'onfire': onfire, 'gs': gs})
+            case = {'n': rng.choice([8, 14, 20, 30]), 'stims': stims, 'ops': ops, 'onfire': onfire, 'gs': gs,
+                    'torder': [rng.randrange(0, 28) for _ in range(rng.randint(1, 4))]}
+            if rng.random() < 0.10:
+                # timers below a plain component that is unregistered later (oracle only, not in the model)
+                nh = rng.randint(1, 2)
+                ops[0] = ops[0] + [['create_in', rng.randrange(nh), rng.choice(GRID), rng.random() < 0.6]
+                                   for _ in range(rng.randint(1, 3))]
+                k = rng.randrange(nops)
+                ops[k] = ops[k] + [['unreg_holder', rng.randrange(nh)]]
+                if rng.random() < 0.5:
+                    case['stims'] = sorted(stims + [[T0 + rng.choice([100, 600, 1100, 2100]), 0, k]], key=lambda s: s[0])
+            cases.append(case)
         gd = self.stats.setdefault('generated_ops', {})
         for c in cases:
             for o in [o for l in c['ops'] + c['onfire'] for o in l] + [o for g in c['gs'] for st in g if st[0] == 'ops' for o in st[1]]:
@@ -495,8 +644,12 @@ class C09(Prop):
                 bump('unregister_requests')
         if obs['idle']:
             bump('runs_ending_idle_forever')
-        if any(f[1] for f in obs['final']):
-            bump('runs_ending_with_unregistration_pending')
+        if any(r[0] == 6 for r in obs['log']):
+            bump('runs_with_reregistration')
+        if any(r[0] == 7 for r in obs['log']):
+            bump('runs_with_holder_removed')
+        if len(set(obs['tsched'])) > 1:
+            bump('runs_with_several_tasks')
         return obs
 
     def search(self, rng, tier):
@@ -504,24 +657,28 @@ class C09(Prop):
 
     # ---- model
     def model_term(self, case):
+        if has_holder(case):
+            return None       # timers below a component that is unregistered: oracle only (not in the model)
         obs = self._side.get(common.canon(case))
         if obs is None:
             obs = self.safe_impl(case)
         if isinstance(obs, dict) and '__crash__' in obs:
-            obs = {'log': [], 'tmo': list(Fraction(_M.TIMEOUT * UNIT).as_integer_ratio())}
-        sched = [r[1] for r in obs['log'] if r[0] == 5]
+            return 'Tl [Tn (-999)]'
+        sched = [i for _, l in obs['fired'] for i in l]
         stims = '[%s]' % '; '.join('(%s, %s, %d%%nat)' % (z(s[0]), 'true' if s[1] else 'false', s[2]) for s in case['stims'])
         prog = ('(mkProg [%s] [%s] [%s] %s %s)' % (
             '; '.join(ops_term(o) for o in case['ops']),
             '; '.join(ops_term(o) for o in case['onfire']),
             '; '.join('[%s]' % '; '.join(gstep_term(s) for s in g) for g in case['gs']),
             z(obs['tmo'][0]), z(obs['tmo'][1])))
-        return 'obs_run %s %s %s [%s]%%nat %d%%nat' % (prog, z(T0), stims, ';'.join(str(i) for i in sched), case['n'])
+        fin = '[%s]' % '; '.join('(%s, %s)' % ('true' if f[0] else 'false', z(f[1])) for f in obs['final'])
+        return 'k_agree %s %s %s [%s]%%nat [%s]%%nat %d%%nat %s %s' % (
+            prog, z(T0), stims, ';'.join(str(i) for i in sched), ';'.join(str(i) for i in obs['tsched']),
+            case['n'], hist_term(obs), fin)
 
     def obs_for_model(self, case, obs):
-        if isinstance(obs, dict) and '__crash__' in obs:
-            return [-999]
-        return [[r[:3] if r[0] == 4 else r for r in obs['log']], obs['final'], obs['now'], obs['ticks'], obs['idle']]
+        # the comparison itself happens inside Coq (Model/TimersObs.v k_agree): 1 = agreement
+        return 1
 
     # ---- oracle
     def oracle(self, case, obs):
